@@ -1611,11 +1611,147 @@ def sc_rebind(u, V, rng):
             'x_%s_e = v_%s' % (u, u)]
 
 
-SCENARIOS = [('rebind', sc_rebind), ('closure', sc_closure), ('lambda', sc_lambda), ('generator', sc_generator), ('comprehension', sc_comprehension),
+# ---- round 2: two directed families (also mixed into the random programs) -------------------------
+# (a) class-level callables reached through the MRO: @classmethod / @staticmethod defined in a base (or
+#     middle) class, called on the defining class, on SUBCLASS OBJECTS (1-2 levels below), through an alias
+#     of the class object and on instances; the result depends on `cls` (cls(), cls(1), cls(q), cls itself,
+#     another classmethod through cls).  Every class has its own line, so "instance of Base" and "instance of
+#     Sub" are different answers for the x_* (exact) probes.
+# (b) binary operators between instances of two unrelated user classes: forward only, reflected only,
+#     both; the magic method returns `other`, `self`, a fixed value, `other.w()` or `self.w()`; inline
+#     operands, operands through names, an operand of a subclass that inherits the magic method, and
+#     the augmented form.  Oracle for both: CPython execution.
+CM_VARIANTS = [dict(depth=d, definer=w, ctor=c) for d in (1, 2) for w in ('base', 'mid') for c in ('cls()', 'cls(1)', 'cls(q)')
+               if not (d == 1 and w == 'mid')]
+BIN_OPS = ['+', '-', '*', '/', '//', '@', '**', '<<', '>>', '&', '|', '^']      # no '%': jedi answers the left operand by design
+BIN_MAGIC = {'+': 'add', '-': 'sub', '*': 'mul', '/': 'truediv', '//': 'floordiv', '@': 'matmul', '**': 'pow', '<<': 'lshift',
+             '>>': 'rshift', '&': 'and', '|': 'or', '^': 'xor'}
+BIN_MODES = ['fwd', 'rev', 'both']
+BIN_RETS = ['other', 'self', 'fixed', 'other.w()', 'self.w()']
+BIN_VARIANTS = []
+for _i, _ops in enumerate([('+', '-', '*'), ('-', '*', '+'), ('*', '+', '-'), ('/', '@', '|'), ('//', '**', '&'), ('<<', '>>', '^')]):
+    for _m in range(3):
+        for _r in range(5):
+            # three operators per program; mode and return kind rotate so that over the family every
+            # (operator of + - *, mode, return kind) combination occurs
+            BIN_VARIANTS.append(dict(ops=[(_ops[k], BIN_MODES[(_m + k) % 3], BIN_RETS[(_r + k * 2) % 5], BIN_RETS[(_r + k * 2 + 1 + _i) % 5])
+                                          for k in range(3)], nr=_i * 15 + _m * 5 + _r))
+
+
+def sc_clsmeth(u, V, rng, variant=None):
+    v = variant or dict(depth=rng.choice((1, 2)), definer=rng.choice(('base', 'mid')), ctor=rng.choice(('cls()', 'cls(1)', 'cls(q)')))
+    depth, ctor = v['depth'], v['ctor']
+    mid = v['definer'] == 'mid' and depth == 2
+    a, b, c, d, e = V(), V(), V(), V(), V()
+    B, S, T = 'B_%s' % u, 'S_%s' % u, 'T_%s' % u
+    sig = 'cls, q' if ctor == 'cls(q)' else 'cls'
+    arg = (lambda val: val) if ctor == 'cls(q)' else (lambda val: '')
+    meths = ['    @classmethod',
+             '    def mk(%s):' % sig,
+             '        return %s' % ctor,
+             '    @classmethod',
+             '    def kd(cls):',
+             '        return cls',
+             '    @classmethod',
+             '    def tp(cls, q):',
+             '        return (%s, q)' % ('cls(q)' if ctor == 'cls(q)' else ctor),
+             '    @classmethod',
+             '    def ch(%s):' % sig,
+             '        return cls.mk(%s)' % ('q' if ctor == 'cls(q)' else ''),
+             '    @staticmethod',
+             '    def sm(q):',
+             '        return (q, %s)' % a,
+             '    def im(self, q):',
+             '        return self.mk(%s)' % ('q' if ctor == 'cls(q)' else '')]
+    init = ['    def __init__(self, p=%s):' % b,
+            '        self.p = p']
+    out = ['class %s:' % B] + init + ([] if mid else meths)
+    out += ['class %s(%s):' % (S, B), '    tag = %s' % c] + (meths if mid else [])
+    classes = [S] if mid else [B, S]
+    if depth == 2:
+        out += ['class %s(%s):' % (T, S), '    pass']
+        classes.append(T)
+    n = [0]
+
+    def probe(rhs):
+        n[0] += 1
+        out.append('x_%s_%s = %s' % (u, 'abcdefghijklmnopqrstuvwxyz'[n[0] - 1] if n[0] <= 26 else 'z%d' % n[0], rhs))
+    for K in classes:
+        probe('%s.mk(%s)' % (K, arg(d)))
+        probe('%s(%s).mk(%s)' % (K, e, arg(d)))
+    low = classes[-1]
+    probe('%s.kd()()' % low)
+    probe('%s.tp(%s)[0]' % (low, d))
+    probe('%s.tp(%s)[1]' % (low, d))
+    probe('%s.ch(%s)' % (low, arg(e)))
+    probe('%s.sm(%s)[0]' % (low, d))
+    probe('%s().sm(%s)[1]' % (low, d))
+    probe('%s().im(%s)' % (low, e))
+    probe('%s.mk(%s).p' % (low, arg(d)))
+    out.append('c_%s = %s' % (u, low))
+    probe('c_%s.mk(%s)' % (u, arg(e)))
+    probe('c_%s().tp(%s)[0]' % (u, e))
+    return out
+
+
+def sc_binop(u, V, rng, variant=None):
+    if variant is None:
+        ops = rng.sample(BIN_OPS[:3], 2) + [rng.choice(BIN_OPS)]
+        variant = dict(ops=[(o, rng.choice(BIN_MODES), rng.choice(BIN_RETS), rng.choice(BIN_RETS)) for o in dict.fromkeys(ops)], nr=rng.randrange(21))
+    fixed = list(EX_VALUES)
+    k = variant['nr'] % len(fixed)
+    fixed = fixed[k:] + fixed[:k]            # pairwise distinct classes for w() of both sides and the fixed results
+    L, L2, R, R2 = 'L_%s' % u, 'LL_%s' % u, 'R_%s' % u, 'RR_%s' % u
+    wl, wr = ('self', fixed[0]) if variant['nr'] % 3 == 0 else (fixed[0], 'self') if variant['nr'] % 3 == 1 else (fixed[0], fixed[1])
+
+    def ret(kind, n):
+        return fixed[2 + n % 3] if kind == 'fixed' else kind
+    lbody, rbody = ['    def w(self):', '        return %s' % wl], ['    def w(self):', '        return %s' % wr]
+    for n, (op, mode, fret, rret) in enumerate(variant['ops']):
+        if mode in ('fwd', 'both'):
+            lbody += ['    def __%s__(self, other):' % BIN_MAGIC[op], '        return %s' % ret(fret, n)]
+        if mode in ('rev', 'both'):
+            rbody += ['    def __r%s__(self, other):' % BIN_MAGIC[op], '        return %s' % ret(rret, n + 1)]
+    out = ['class %s:' % L] + lbody + ['class %s(%s):' % (L2, L), '    pass', 'class %s:' % R] + rbody + ['class %s(%s):' % (R2, R), '    pass']
+    out += ['l_%s = %s()' % (u, L), 'rr_%s = %s()' % (u, R2)]
+    n = [0]
+
+    def probe(rhs):
+        n[0] += 1
+        out.append('x_%s_%s = %s' % (u, 'abcdefghijklmnopqrstuvwxyz'[n[0] - 1] if n[0] <= 26 else 'z%d' % n[0], rhs))
+    for (op, mode, fret, rret) in variant['ops']:
+        probe('%s() %s %s()' % (L, op, R))
+        probe('l_%s %s rr_%s' % (u, op, u))
+        probe('%s() %s %s()' % (L2, op, R))
+        out.append('g_%s = %s()' % (u, L))
+        out.append('g_%s %s= %s()' % (u, op, R))
+        probe('g_%s' % u)
+    return out
+
+
+SCENARIOS = [('clsmeth', sc_clsmeth), ('binop', sc_binop),
+             ('rebind', sc_rebind), ('closure', sc_closure), ('lambda', sc_lambda), ('generator', sc_generator), ('comprehension', sc_comprehension),
              ('decorator', sc_decorator), ('descriptors', sc_descriptors), ('magic', sc_magic), ('isinstance', sc_isinstance),
              ('annotation', sc_annotation), ('docstring', sc_docstring), ('inherit', sc_inherit), ('super_init', sc_super_init),
              ('flow', sc_flow), ('unpack', sc_unpack), ('star_unpack', sc_star_unpack), ('containers', sc_containers),
              ('params', sc_params), ('dynparam', sc_dynparam)]
+
+
+def gen_directed():
+    """the directed families of round 2: one program per variant, seed independent (values cycle)"""
+    out = []
+    for name, fn, variants in (('clsmeth', sc_clsmeth, CM_VARIANTS), ('binop', sc_binop, BIN_VARIANTS)):
+        for j, variant in enumerate(variants):
+            cyc = [j]
+
+            def V():
+                cyc[0] += 1
+                return EX_VALUES[(cyc[0] * 3 + j) % len(EX_VALUES)]
+            lines = list(EX_PRELUDE)
+            block = fn('%s%d' % (name[:2], j), V, None, variant)
+            where = {len(lines) + n + 1: name for n in range(len(block))}
+            out.append(('\n'.join(lines + block) + '\n', where))
+    return out
 
 
 def gen_explore(rng, k):
@@ -1752,6 +1888,8 @@ def explore_stream(ctx, items, stats):
                 stats['explore_probes_cut_short_by_giveup_limits'] += 1
                 continue
             stats['explore_probes'] += 1
+            if sc in ('clsmeth', 'binop'):
+                stats['explore_probes_' + sc] += 1
             ctx.count('explore', (r['src'], pr['line'], pr['col']), nontrivial=True)
             got = {(d[0], d[2]) for d in pr['res'] if d[1] == 'instance'}
             rt = {tuple(x) for x in pr['runtime']}
@@ -1782,7 +1920,12 @@ def run(ctx):
         'non-trivial = infer reports something / the occurrence was evaluated by the run; distinct by (source, occurrence, input). '
         'mro: hierarchies over 4 classes from the exhaustive enumeration (bases = ordered selections of <= 2 earlier classes, '
         'override pattern) plus seeded random hierarchies of 3..6 classes; a case = (class, attribute). '
-        'explore: seeded programs assembled from 19 feature scenarios with random values; a case = one binding occurrence r_*/x_*.')
+        'explore: seeded programs assembled from 21 feature scenarios with random values, plus the seed-independent directed families '
+        '(9 programs: @classmethod/@staticmethod defined in a base or middle class called on the defining class, subclass objects 1-2 '
+        'levels below, a class alias and instances, result built from cls; 90 programs: binary operators between instances of two '
+        'unrelated user classes, forward only / reflected only / both x result other / self / fixed / other.w() / self.w(), every '
+        'combination for + - * and nine further operators, inline and named operands, inherited magic method, augmented form); '
+        'a case = one binding occurrence r_*/x_*.')
     ctx.assumptions += [
         'function bodies of the core language are closed (parameters, earlier functions, earlier classes); names of functions and classes are unique',
         'Script.infer is asked at the closing bracket / number / name of an occurrence and at the target name for a whole right-hand side',
@@ -1820,6 +1963,11 @@ def run(ctx):
     for i in range(ctx.n(100, 600)):
         src, where = gen_explore(rng, rng.randint(3, 6))
         ex.append((i, src, where))
+    # round 2: the directed families (inherited class-level callables, binary operators) run in every tier
+    directed = gen_directed()
+    for src, where in directed:
+        ex.append((len(ex), src, where))
+    stats['explore_directed_programs'] = len(directed)
     explore_stream(ctx, ex, stats)
     stats['t_explore_stream_s'] = round(time.time() - t0, 1)
     cut = stats['probes_cut_short_by_giveup_limits']
